@@ -65,8 +65,19 @@ def eval_run(case, oracles, timeout_s=90):
         if binding:
             stats.append("limit_binds")
     replay_case = {k: v for k, v in full.items()}
+    comp = full["scenario"]["components"]
+    sample = {"strategy": full["strategy"], "options": full["options"], "scenario": full["scenario"]["scenario"],
+              "connectors": {g: c["max_power"] for g, c in comp["grid_connectors"].items()},
+              "vehicles": len(comp["vehicles"]), "stations": len(comp["charging_stations"]),
+              "batteries": list(comp.get("batteries", {})),
+              "fixed_load_series": list(full["scenario"]["events"].get("fixed_load", {})),
+              "generation_series": list(full["scenario"]["events"].get("local_generation", {})),
+              "signals": len(full["scenario"]["events"].get("grid_operator_signals", [])),
+              "vehicle_events": len(full["scenario"]["events"].get("vehicle_events", [])),
+              "reported_steps": r.get("step_i"), "aborted": r.get("aborted"), "fault_step": fault,
+              "steps_with_binding_limit": binding}
     return {"lines": lines, "impl": impl, "violations": viol, "nontrivial": bool(r.get("step_i")),
-            "stats": stats, "replay_case": replay_case,
+            "stats": stats, "replay_case": replay_case, "sample": sample,
             "num": {"max_steps_in_a_run": r.get("step_i") or 0}}
 
 
